@@ -4,5 +4,5 @@ cd "$(dirname "$0")/.."
 tier=${1:-quick}
 ids=$(python3 -c "import json;print(' '.join(c['property_id'] for c in json.load(open('MANIFEST.json'))['checks']))")
 fail=0
-printf '%s\n' $ids | xargs -P 4 -I{} sh -c './check {} '$tier' > /tmp/runall.{}.log 2>&1; echo "{} rc=$?"' | sort
+printf '%s\n' $ids | xargs -P ${PAR:-4} -I{} sh -c './check {} '$tier' > /tmp/runall.{}.log 2>&1; echo "{} rc=$?"' | sort
 grep -l "^VIOLATION" /tmp/runall.*.log 2>/dev/null
